@@ -1074,6 +1074,10 @@ class Exec:
                     buf.items.extend(dv.items)
                 elif isinstance(dv, tuple):
                     buf.items.extend(dv)
+                elif isinstance(dv, (bm.SSeq, Opaque)):
+                    # delegating to an abstract iterable: its items are not enumerated; the generator's result is then
+                    # abstract as well (one marker item standing for "the items of that iterable")
+                    buf.items.append(Opaque("YieldedFrom"))
                 else:
                     raise Unsupported("yield from non-concrete iterable")
             yield st1, ("normal", None)
